@@ -111,6 +111,12 @@ var diagFrags = []struct {
 	{"target type must be a pointer struct", 32},
 	{"source type must be a struct or pointer struct", 32},
 	{"enum:unknown is not configured", 31},
+	{"Cannot return @error because", 31},
+	{"Detected multiple enum source members", 31},
+	{"Configured enum value", 31},
+	{"did not return any mapped values", 31},
+	{"error executing transformer", 31},
+	{"invalid target \"", 31},
 	{"Enum ", 31},
 	{"does not exist", 25}, // autoMap path element
 }
@@ -158,7 +164,7 @@ func writeModule(root string, p *Program, convs []*ConvSpec) {
 	}
 	sb.WriteString(body.String())
 	must(os.WriteFile(filepath.Join(root, "p", "conv.go"), []byte(sb.String()), 0o644))
-	if len(p.Funcs) > 0 {
+	{
 		must(os.MkdirAll(filepath.Join(root, "sup"), 0o755))
 		must(os.MkdirAll(filepath.Join(root, "werr"), 0o755))
 		must(os.WriteFile(filepath.Join(root, "sup", "sup.go"), []byte(supSource), 0o644))
@@ -533,6 +539,8 @@ func reportErr(w *bufio.Writer, id int, err error) {
 	// ... and a returned error is, or wraps, the error of the function that failed
 	var se *sup.Err
 	switch {
+	case strings.Contains(err.Error(), "unexpected enum element"):
+		// the error of an enum switch (enum:unknown @error / enum:map X @error), not of a custom function
 	case len(sup.Failed) == 0:
 		fmt.Fprintf(w, "O\t%d\tthe generated method returned an error although no custom function failed: %v\n", id, err)
 	case !errors.As(err, &se) || se.Fn != sup.Failed[0]:
@@ -562,6 +570,8 @@ func reportErr(w *bufio.Writer, id int, err error) {
 			msg := err.Error()
 			var n int
 			switch {
+			case strings.HasPrefix(msg, "unexpected enum element: "):
+				fn = 1000000
 			case strings.HasPrefix(msg, "error setting field "):
 				rest := strings.TrimPrefix(msg, "error setting field ")
 				wraps = append(wraps, "[DField " + runes(rest[:strings.Index(rest, ": ")]) + "]")
@@ -654,11 +664,11 @@ func writeDriver(root string, p *Program, cases []*runCase, race bool) {
 	if strings.Contains(text, "generated.") {
 		fmt.Fprintf(&sb, "\tgenerated %q\n", pkgPaths[3])
 	}
-	if len(p.Funcs) > 0 {
+	if true {
 		sb.WriteString("\t\"errors\"\n\tsup \"example.org/m/sup\"\n\twerr \"example.org/m/werr\"\n")
 	}
 	sb.WriteString(")\n\nvar _ = sort.Ints\nvar _ = strings.Join\n")
-	if len(p.Funcs) > 0 {
+	if true {
 		sb.WriteString(errPrelude)
 	} else {
 		sb.WriteString("func reportErr(w *bufio.Writer, id int, err error) { fmt.Fprintf(w, \"R\\t%d\\tERR\\t(0, [])\\n\", id) }\nfunc clearFailed() {}\nfunc checkNoFailure(w *bufio.Writer, id int) {}\n")
